@@ -653,9 +653,9 @@ func encodeLossless(img image.Image, opts *EncoderOptions) ([]byte, uint32, erro
 				// Un-premultiply for lossless encoding (VP8L stores NRGBA).
 				if a > 0 && a < 255 {
 					a16 := uint16(a)
-					r = uint8(uint16(r) * 255 / a16)
-					g = uint8(uint16(g) * 255 / a16)
-					b = uint8(uint16(b) * 255 / a16)
+					r = uint8((uint32(r) * 0xffff / uint32(a16)) >> 8)
+					g = uint8((uint32(g) * 0xffff / uint32(a16)) >> 8)
+					b = uint8((uint32(b) * 0xffff / uint32(a16)) >> 8)
 				}
 				argb[y*width+x] = uint32(a)<<24 | uint32(r)<<16 | uint32(g)<<8 | uint32(b)
 			}
@@ -719,9 +719,9 @@ func encodeLosslessToWriter(w io.Writer, img image.Image, opts *EncoderOptions) 
 				r, g, b := rgba.Pix[off], rgba.Pix[off+1], rgba.Pix[off+2]
 				if a > 0 && a < 255 {
 					a16 := uint16(a)
-					r = uint8(uint16(r) * 255 / a16)
-					g = uint8(uint16(g) * 255 / a16)
-					b = uint8(uint16(b) * 255 / a16)
+					r = uint8((uint32(r) * 0xffff / uint32(a16)) >> 8)
+					g = uint8((uint32(g) * 0xffff / uint32(a16)) >> 8)
+					b = uint8((uint32(b) * 0xffff / uint32(a16)) >> 8)
 				}
 				argb[y*width+x] = uint32(a)<<24 | uint32(r)<<16 | uint32(g)<<8 | uint32(b)
 			}
@@ -818,9 +818,9 @@ func cleanupTransparentAreaLossyWith(img image.Image, hasAlpha bool) image.Image
 					nrgba.Pix[doff+3] = 255
 				} else {
 					a16 := uint16(a)
-					nrgba.Pix[doff] = uint8(uint16(src.Pix[soff]) * 255 / a16)
-					nrgba.Pix[doff+1] = uint8(uint16(src.Pix[soff+1]) * 255 / a16)
-					nrgba.Pix[doff+2] = uint8(uint16(src.Pix[soff+2]) * 255 / a16)
+					nrgba.Pix[doff] = uint8((uint32(src.Pix[soff]) * 0xffff / uint32(a16)) >> 8)
+					nrgba.Pix[doff+1] = uint8((uint32(src.Pix[soff+1]) * 0xffff / uint32(a16)) >> 8)
+					nrgba.Pix[doff+2] = uint8((uint32(src.Pix[soff+2]) * 0xffff / uint32(a16)) >> 8)
 					nrgba.Pix[doff+3] = a
 				}
 			}
